@@ -97,6 +97,27 @@ PROPS["C13"] = {
     "trusted_base": ["model MsiModel/Expr.lean, MsiModel/Value.lean (hand-written)", "reference evaluator harness/src/expr.rs::ref_eval (oracle)"],
     "assumptions": [],
 }
+PROPS["C19"] = {
+    "module": "MsiProofs.Props.C19",
+    "gen": ["expr"],
+    "profiles": ["dev"],
+    "theorems": [
+        "MsiProofs.C19.gen_table_agrees", "MsiProofs.C19.printer_shape", "MsiProofs.C19.spellings",
+    ],
+    "level_text": "Lean: the printer model (format_with_precedence) is parametric in precedences and spellings regenerated from expr.rs; "
+                  "theorems: the regenerated table is the grammar's ladder, the printer has the modelled shape, spellings are the grammar's tokens; "
+                  "tie: real to_string() vs the model's printer on every parent/child operator pair, all small trees and random deep trees; "
+                  "oracle: an independent precedence-climbing reader (harness/src/reader.rs) reads the REAL text back and the result is "
+                  "re-evaluated on sample rows against the original expression.",
+    "level_note": "Trusted: Lean kernel, translator, hand model of the printer, the Rust reader used as oracle. The reader round-trip theorem "
+                  "(read (tokens (fmt e)) = e for all trees) is stated in DESIGN.md and not yet proved in Lean; until then the unbounded claim rests "
+                  "on the printer model + table theorems and the per-pair enumeration.",
+    "technique": "Lean 4 table theorems over regenerated precedences + printer correspondence + independent reader oracle",
+    "rule": "every parent/child operator pair (18x18) on either side; all depth-1 trees over 7 leaves; seeded depth-2 and random trees to depth 5. "
+            "non-trivial = distinct printed texts of depth >= 2",
+    "trusted_base": ["model MsiModel/Expr.lean::fmtP", "Gen/Expr.lean regenerated from src/internal/expr.rs", "harness/src/reader.rs (ladder reader)"],
+    "assumptions": ["string literals without characters needing escapes; column names that are not keywords (the property's domain)"],
+}
 
 # reasons for properties not claimed (yet); everything else defaults to "not yet built"
 NOT_CLAIMED = {}
